@@ -62,11 +62,15 @@ type ctxTokenR struct {
 	form     *ctxForm
 	explicit bool
 	close    bool
+	open     bool // a "(" line of its own
 }
 
 func (t ctxTokenR) tok() ref.CtxToken {
 	if t.close {
 		return ref.CtxToken{Close: true}
+	}
+	if t.open {
+		return ref.CtxToken{Open: true}
 	}
 	k := t.form.tok
 	k.Explicit = t.explicit
@@ -76,6 +80,9 @@ func (t ctxTokenR) tok() ref.CtxToken {
 func (t ctxTokenR) label() string {
 	if t.close {
 		return ")"
+	}
+	if t.open {
+		return "("
 	}
 	if t.explicit {
 		return t.form.name + "("
@@ -93,6 +100,9 @@ func renderCtx(seq []ctxTokenR) (doc string, kwLine, parenLine []int) {
 		pl := 0
 		if t.close {
 			sb.WriteString(")\n")
+			line++
+		} else if t.open {
+			sb.WriteString("(\n")
 			line++
 		} else {
 			sb.WriteString(t.form.head + "\n")
@@ -122,6 +132,7 @@ func ctxAlphabet() []ctxTokenR {
 		}
 	}
 	al = append(al, ctxTokenR{close: true})
+	al = append(al, ctxTokenR{open: true})
 	return al
 }
 
@@ -160,7 +171,8 @@ func C11(c *fw.Ctx) {
 	c.SetExhaustive(true)
 	nRandom := c.Pick(20000, 400000)
 	c.Rule(fmt.Sprintf("tokens = %d (36 directive forms: 31 kinds, the five HTTP methods with and without a path; each implicit or followed by '(' "+
-		"except Description; plus ')'); ALL sequences of length <= 3 (%d) and %d seeded random sequences of length 4-8; each kind has one "+
+		"except Description; plus ')' and a '(' on a line of its own, which belongs to the directive before it if that has none yet and is an " +
+		"error otherwise); ALL sequences of length <= 3 (%d) and %d seeded random sequences of length 4-8; each kind has one "+
 		"lexically valid canonical rendering so that the first error, if any, is the context error; oracle = reference automaton "+
 		"(harness/internal/ref/context.go); distinct = distinct token sequences; non-trivial = every sequence (each decides one verdict)",
 		len(al), len(al)+len(al)*len(al)+len(al)*len(al)*len(al), nRandom))
@@ -172,10 +184,16 @@ func C11(c *fw.Ctx) {
 		seq []ctxTokenR
 	}
 	emitSeq := func(emit func(*proto.Job), seq []ctxTokenR, id string) {
+		for i, t := range seq {
+			// a "(" line right after a Description is part of its text, not a parenthesis: not a sequence of the alphabet
+			if t.open && i > 0 && !seq[i-1].close && !seq[i-1].open && seq[i-1].form.noParen {
+				return
+			}
+		}
 		doc, _, _ := renderCtx(seq)
 		hasInclude := false
 		for _, t := range seq {
-			if !t.close && t.form.name == "INCLUDE" {
+			if !t.close && !t.open && t.form.name == "INCLUDE" {
 				hasInclude = true
 			}
 		}
@@ -364,7 +382,21 @@ func C11(c *fw.Ctx) {
 				return
 			}
 			if v.Class != "not-closed" && res.Err.Line != kwLine[v.ErrAt] {
-				c.Violate("context:error-line", fmt.Sprintf("sequence [%s]: offending token %d is on line %d, error says line %d", key, v.ErrAt, kwLine[v.ErrAt], res.Err.Line), rp())
+				// A directive is checked against the context table when the next keyword (or ")" or the end) arrives, a parenthesis at
+				// once: when the offending directive is directly followed by a surplus "(", that parenthesis is met first. Both are
+				// errors of the text; either location is truthful.
+				alt := -1
+				if e := v.ErrAt; e < len(toks) && !toks[e].Close && !toks[e].Open {
+					switch {
+					case toks[e].Explicit && e+1 < len(toks) && toks[e+1].Open:
+						alt = e + 1
+					case !toks[e].Explicit && e+2 < len(toks) && toks[e+1].Open && toks[e+2].Open:
+						alt = e + 2
+					}
+				}
+				if alt < 0 || res.Err.Line != kwLine[alt] {
+					c.Violate("context:error-line", fmt.Sprintf("sequence [%s]: offending token %d is on line %d, error says line %d", key, v.ErrAt, kwLine[v.ErrAt], res.Err.Line), rp())
+				}
 			}
 		}
 		if c.NeedSample() && len(seq) == 3 && v.Class == "incorrect-context" && v.ErrAt == 2 {
@@ -399,6 +431,9 @@ type mfTokPos struct {
 func c11MultiFile(c *fw.Ctx, al []ctxTokenR) {
 	var forms []ctxTokenR
 	for _, t := range al {
+		if t.open {
+			continue // the multi-file family keeps to the tokens of the context table
+		}
 		if t.close || (t.form.name != "INCLUDE" && t.form.name != "JSIGHT") { // JSIGHT is forbidden in included files by another rule
 			forms = append(forms, t)
 		}
